@@ -177,8 +177,9 @@ func (c closerMember) CloseWithStatus(transport.CloseStatus) error { return c.me
 // ---------------------------------------------------------------- gated pollers
 
 type pollReq struct {
-	id   string
-	done chan string
+	id    string
+	done  chan string
+	flush bool // release a Get that a closed transport generation is still blocked in (the gate is an artefact of the harness)
 }
 
 // gatePoller makes every Get of the PollingScheduler wait for a `select` step of the script, so that
@@ -195,6 +196,11 @@ type gatePoller struct {
 func (p *gatePoller) Get() transport.TransportID {
 	select {
 	case r := <-p.req:
+		if r.flush {
+			p.mu.Lock()
+			defer p.mu.Unlock()
+			return p.last
+		}
 		id := transport.TransportID(r.id)
 		if p.inner != nil {
 			id = p.inner.Get()
@@ -522,6 +528,18 @@ func run(sc *h.Scenario) *h.Rec {
 			// scheduler - over fresh member connections; the old one is closed first
 			if !closed {
 				guard(func() { mt.Close() })
+			}
+			if gp != nil {
+				// the polling loop of the closed generation may still sit in the gated Get (a real poller never blocks): let it return,
+				// so that it cannot take the next scripted selection away from the new generation. Its context is done, the id is dropped.
+				for k := 0; k < 4; k++ {
+					select {
+					case gp.req <- pollReq{flush: true}:
+						continue
+					case <-time.After(25 * time.Millisecond):
+					}
+					break
+				}
 			}
 			mkMembers()
 			cfg.TransportMap = tm
